@@ -328,3 +328,139 @@ theorem Table.getShape_spec (T : Table) (a c : ℝ) :
     rw [Table.domain_ok T a c h]
 
 end Fam
+
+/-! ### sortedness of `np.unique`: distinct rounded keys -/
+
+namespace Fam
+
+/-- real lexicographic order behind `keyLe` -/
+theorem keyLe_iff (u v : V3 ℝ) : keyLe u v = true ↔
+    u.x < v.x ∨ (u.x = v.x ∧ (u.y < v.y ∨ (u.y = v.y ∧ u.z ≤ v.z))) := by
+  unfold keyLe
+  split_ifs with h1 h2 h3 h4
+  · simp [h1]
+  · simp only [false_iff]; intro h; rcases h with h | ⟨h, _⟩ <;> linarith
+  · have hx : u.x = v.x := le_antisymm (not_lt.mp h2) (not_lt.mp h1)
+    simp [hx, h3]
+  · have hx : u.x = v.x := le_antisymm (not_lt.mp h2) (not_lt.mp h1)
+    simp only [false_iff]
+    intro h; rcases h with h | ⟨_, h | ⟨h, _⟩⟩ <;> linarith
+  · have hx : u.x = v.x := le_antisymm (not_lt.mp h2) (not_lt.mp h1)
+    have hy : u.y = v.y := le_antisymm (not_lt.mp h4) (not_lt.mp h3)
+    simp [hx, hy]
+
+theorem keyLe_trans (a b c : V3 ℝ) (h1 : keyLe a b = true) (h2 : keyLe b c = true) :
+    keyLe a c = true := by
+  rw [keyLe_iff] at *
+  rcases h1 with h1 | ⟨e1, h1 | ⟨e1', h1⟩⟩ <;> rcases h2 with h2 | ⟨e2, h2 | ⟨e2', h2⟩⟩
+  · left; linarith
+  · left; linarith
+  · left; linarith
+  · left; linarith
+  · right; exact ⟨e1.trans e2, Or.inl (by linarith)⟩
+  · right; exact ⟨e1.trans e2, Or.inl (by linarith)⟩
+  · left; linarith
+  · right; exact ⟨e1.trans e2, Or.inl (by linarith)⟩
+  · right; exact ⟨e1.trans e2, Or.inr ⟨e1'.trans e2', by linarith⟩⟩
+
+theorem keyLe_total (a b : V3 ℝ) : (keyLe a b || keyLe b a) = true := by
+  rw [Bool.or_eq_true, keyLe_iff, keyLe_iff]
+  rcases lt_trichotomy a.x b.x with h | h | h
+  · left; left; exact h
+  · rcases lt_trichotomy a.y b.y with h' | h' | h'
+    · left; right; exact ⟨h, Or.inl h'⟩
+    · rcases le_total a.z b.z with h'' | h''
+      · left; right; exact ⟨h, Or.inr ⟨h', h''⟩⟩
+      · right; right; exact ⟨h.symm, Or.inr ⟨h'.symm, h''⟩⟩
+    · right; right; exact ⟨h.symm, Or.inl h'⟩
+  · right; left; exact h
+
+theorem keyLe_antisymm (a b : V3 ℝ) (h1 : keyLe a b = true) (h2 : keyLe b a = true) : a = b := by
+  rw [keyLe_iff] at *
+  rcases h1 with h1 | ⟨e1, h1 | ⟨e1', h1⟩⟩ <;> rcases h2 with h2 | ⟨e2, h2 | ⟨e2', h2⟩⟩ <;>
+    first
+    | (exfalso; linarith)
+    | exact V3.ext' e1 e1' (le_antisymm h1 h2)
+
+/-- in a list sorted by a total preorder whose equivalence is `eq`, the run heads have pairwise
+    inequivalent elements -/
+theorem runHeadsAux_pairwise {β : Type} (le eq : β → β → Bool)
+    (htrans : ∀ a b c, le a b = true → le b c = true → le a c = true)
+    (hanti : ∀ a b, le a b = true → le b a = true → eq a b = true)
+    (heq_le : ∀ a b, eq a b = true → le b a = true)
+    (p : β) (l : List β) (hs : (p :: l).Pairwise (fun a b => le a b = true)) :
+    (runHeadsAux eq p l).Pairwise (fun a b => eq a b = false) ∧
+    ∀ y ∈ runHeadsAux eq p l, eq p y = false := by
+  induction l generalizing p with
+  | nil => simp [runHeadsAux]
+  | cons x xs ih =>
+    rw [List.pairwise_cons] at hs
+    obtain ⟨hp, hs'⟩ := hs
+    simp only [runHeadsAux]
+    by_cases hpx : eq p x = true
+    · rw [if_pos hpx]
+      have hs'' : (p :: xs).Pairwise (fun a b => le a b = true) := by
+        rw [List.pairwise_cons]
+        exact ⟨fun y hy => hp y (List.mem_cons_of_mem _ hy), (List.pairwise_cons.mp hs').2⟩
+      exact ih p hs''
+    · rw [if_neg hpx]
+      obtain ⟨ih1, ih2⟩ := ih x hs'
+      have hpx' : eq p x = false := by simpa using hpx
+      refine ⟨List.pairwise_cons.mpr ⟨ih2, ih1⟩, ?_⟩
+      intro y hy
+      rcases List.mem_cons.mp hy with rfl | hy
+      · exact hpx'
+      · -- p ≤ x ≤ y; if eq p y then y ≤ p hence x ≤ p, so eq p x: contradiction
+        by_contra hc
+        have hpy : eq p y = true := by simpa using hc
+        have hyx : y ∈ xs := mem_runHeadsAux eq x y xs hy
+        have hxy : le x y = true := (List.pairwise_cons.mp hs').1 y hyx
+        have hyp : le y p = true := heq_le p y hpy
+        have hxp : le x p = true := htrans x y p hxy hyp
+        have hpx2 : le p x = true := hp x List.mem_cons_self
+        exact hpx (hanti p x hpx2 hxp)
+
+theorem runHeads_pairwise {β : Type} (le eq : β → β → Bool)
+    (htrans : ∀ a b c, le a b = true → le b c = true → le a c = true)
+    (hanti : ∀ a b, le a b = true → le b a = true → eq a b = true)
+    (heq_le : ∀ a b, eq a b = true → le b a = true)
+    (l : List β) (hs : l.Pairwise (fun a b => le a b = true)) :
+    (runHeads eq l).Pairwise (fun a b => eq a b = false) := by
+  cases l with
+  | nil => simp [runHeads]
+  | cons x xs =>
+    simp only [runHeads]
+    obtain ⟨h1, h2⟩ := runHeadsAux_pairwise le eq htrans hanti heq_le x xs hs
+    exact List.pairwise_cons.mpr ⟨h2, h1⟩
+
+/-- **no two returned points share a rounded key** -/
+theorem uniqueRounded_keys_nodup (l : List (V3 ℝ)) :
+    (uniqueRounded l).Pairwise (fun p q => key p ≠ key q) := by
+  unfold uniqueRounded
+  rw [List.pairwise_map]
+  have hsorted := List.pairwise_mergeSort (le := fun u v : V3 ℝ × V3 ℝ => keyLe u.1 v.1)
+    (fun a b c => keyLe_trans a.1 b.1 c.1) (fun a b => keyLe_total a.1 b.1)
+    (l.map fun x => (key x, x))
+  have hkey : ∀ u ∈ (l.map fun x => (key x, x)).mergeSort (fun u v => keyLe u.1 v.1), u.1 = key u.2 := by
+    intro u hu
+    rw [List.mem_mergeSort] at hu
+    obtain ⟨x, _, rfl⟩ := List.mem_map.mp hu
+    rfl
+  have hp := runHeads_pairwise (fun u v : V3 ℝ × V3 ℝ => keyLe u.1 v.1) (fun u v => keyEq u.1 v.1)
+    (fun a b c => keyLe_trans a.1 b.1 c.1)
+    (fun a b h1 h2 => (keyEq_iff _ _).mpr (keyLe_antisymm a.1 b.1 h1 h2))
+    (fun a b h => by
+      have := (keyEq_iff _ _).mp h
+      rw [this]
+      have := keyLe_total b.1 b.1; simpa using this)
+    _ hsorted
+  refine List.Pairwise.imp_of_mem ?_ hp
+  intro a b ha hb hab
+  have ha' := hkey a (mem_runHeads _ _ _ ha)
+  have hb' := hkey b (mem_runHeads _ _ _ hb)
+  intro hk
+  rw [← ha', ← hb'] at hk
+  have : keyEq a.1 b.1 = true := (keyEq_iff _ _).mpr hk
+  rw [this] at hab; cases hab
+
+end Fam
